@@ -116,7 +116,7 @@ def mk_goal(gs, lanelets=None):
 
 def cast(v, t):
     import numpy as np
-    return {"float": float, "int": int, "float64": np.float64}[t](v)
+    return {"float": float, "int": int, "float64": np.float64, "float32": np.float32, "int64": np.int64, "int32": np.int32, "float16": np.float16}[t](v)
 
 
 def mk_state(s):
@@ -124,7 +124,7 @@ def mk_state(s):
     import numpy as np
     from commonroad.scenario import state as st
     ty = s.get("types", {})
-    kw = {"time_step": s["t"], "position": np.array(s["pos"], dtype=float)}
+    kw = {"time_step": cast(s["t"], ty["t"]) if "t" in ty else s["t"], "position": np.array(s["pos"], dtype=float)}
     cls = getattr(st, s["cls"]) if s["cls"] != "CustomPM" else None
     if s["cls"] in ("PMState",):
         kw["velocity"] = cast(s["vel"], ty.get("vel", "float")); kw["velocity_y"] = cast(s["vy"], ty.get("vy", "float"))
@@ -385,7 +385,8 @@ def probe_points(sh):
     elif k == "circle":
         r, cx, cy = sh[1:]
         for i in range(8):
-            for f in (0.97, 1.03):
+            # (also a millionth / ten-millionth of the radius inside and outside: a rim test with a relative tolerance is wrong there)
+            for f in (0.97, 1.03, 1 - 1e-6, 1 + 1e-6, 1 - 1e-7, 1 + 1e-7):
                 out.append((cx + f * r * math.cos(i * math.pi / 4 + 0.1), cy + f * r * math.sin(i * math.pi / 4 + 0.1)))
     elif k == "poly":
         mx = sum(p[0] for p in sh[1]) / len(sh[1]); my = sum(p[1] for p in sh[1]) / len(sh[1])
@@ -487,7 +488,9 @@ def run_unit(unit, tier):
     elif k == "vel":
         for iv in VELS:
             for v in (-3, -2, -2.0, 0, 0.0, 2.5, 3, 3.0, 5, 5.0, 5.1, 5.000000001, -2.0000001):
-                for t in (("int", "float") if float(v).is_integer() else ("float", "float64")):
+                # the same number in every scalar representation a caller may hold it in (values taken from numpy arrays of any dtype included)
+                reps = ("int", "float", "int64", "int32", "float32", "float64") if float(v).is_integer() else (("float", "float64", "float32", "float16") if v == 2.5 else ("float", "float64"))
+                for t in reps:
                     for cls in KIN:
                         check_case([dict(BASE_G, vel=iv)], dict(BASE_S, cls=cls, vel=v, types={"vel": t}), res, "velocity")
             res.states += 1
@@ -497,6 +500,8 @@ def run_unit(unit, tier):
             for t in range(-1, 8):
                 for cls in KIN:
                     check_case([dict(BASE_G, time=iv)], dict(BASE_S, cls=cls, t=t), res, "time_step")
+                for tt in ("int64", "int32", "float", "float32"):
+                    check_case([dict(BASE_G, time=iv)], dict(BASE_S, cls="KSState", t=t, types={"t": tt}), res, "time_step")
             res.states += 1
         res.sample({"k": "time", "intervals": TIMES}, 1)
     elif k == "conj":
